@@ -4,6 +4,8 @@ import glob, json, os, re
 rows = []
 for m in sorted(glob.glob("/verif/seeded/*/meta.json")):
     d = json.load(open(m))
+    if "property" not in d:
+        continue      # behaviour-preserving refactorings are reported separately
     name = d["name"]
     what = (d.get("summary") or "").strip() + " — needs: " + (d.get("needs_to_manifest") or "") + ((" — " + d["history"]) if d.get("history") else "")
     first = []
